@@ -1,17 +1,29 @@
 """C10 — ordinal windows (Ordinal.Once / Ordinal.where / Prepared.__call__ / Feed.load / Runner.train)
 vs lean/ForML/Model/Ordinal.lean.
 
-End-to-end stream: `project.Source.query(...)` -> `Feed.load(extract, lower, upper)` (a Feed whose Reader is the real
-`forml.provider.feed.reader.alchemy.Reader`) -> `extract.Operator.compose` -> driver actor -> `Statement.Prepared`
--> alchemy `Parser` -> SQLite; the delivered record ids of every window are compared with the model and the
-delivery counts per record are judged by a spec-shaped oracle that knows nothing of the model.
+End-to-end stream: `project.Source.query(...)` -> `Feed.load(extract, lower, upper)` -> `extract.Operator.compose` ->
+driver actor -> `Statement.Prepared` -> alchemy `Parser` -> SQLite; the delivered record ids of every window are
+compared with the model and the delivery counts per record over the *whole window sequence* are judged by a
+spec-shaped oracle that knows nothing of the model.  Two feeds: a generic `io.Feed` with the bare
+`forml.provider.feed.reader.alchemy.Reader` over an in-memory database, and the real provider
+`forml.provider.feed.alchemy.Feed` (result cache in memory and as parquet files under a private $FORML_HOME) over a
+SQLite file, ONE feed instance per storage for the whole run, as a sequence of launches sees it.  The components of the
+extraction path (`Ordinal`, `extract.Statement`, the driver actor builder, the feed) are optionally sent through a
+`cloudpickle`/`copy` round trip before they are used (what a runner does when it ships tasks to other processes), and
+the semantic is given as `None`, any alias spelling or the enum member.
 """
 from __future__ import annotations
 
+import atexit
+import copy
 import datetime
 import decimal
 import itertools
+import os
 import re
+import shutil
+import tempfile
+import time
 import types
 import typing
 
@@ -285,25 +297,158 @@ def exc_name(e: BaseException) -> str:
 # ------------------------------------------------------------------------------------------------
 # implementation adapter
 # ------------------------------------------------------------------------------------------------
-class _Env:
-    """One SQLite database + feed per ordinal kind; the data table is rewritten for every case."""
+#: components of the extraction path that can be sent through a serialisation round trip before use
+#: `ordinal[-copy|-deepcopy]`: the `Ordinal` namedtuple of the extract; `statement`: the `extract.Statement` bound into the
+#: driver actor; `builder`: the driver actor builder (what dask/spark ship); `feed`: the feed ("Feeds need to be serializable")
+SHIP_PLAIN = ['ordinal', 'ordinal-copy', 'ordinal-deepcopy', 'statement']
+SHIP_FILE = SHIP_PLAIN + ['builder', 'builder', 'feed']  # these need a producer that is itself serialisable (connection URL)
+#: stages in which the `Ordinal` namedtuple is rebuilt (through `Ordinal.__new__`, with the member instead of the spelling)
+SHIP_REBUILDS = {'ordinal', 'ordinal-copy', 'ordinal-deepcopy', 'statement', 'builder'}
+
+
+def roundtrip(obj, how: str = 'cloudpickle'):
+    if how == 'copy':
+        return copy.copy(obj)
+    if how == 'deepcopy':
+        return copy.deepcopy(obj)
+    import cloudpickle
+
+    return cloudpickle.loads(cloudpickle.dumps(obj))
+
+
+def live_member(sem: str):
+    """The live enum member of a semantic (by its name)."""
+    from forml import project
+
+    for m in project.Source.Extract.Ordinal.Once:
+        if m.name.lower() == sem:
+            return m
+    raise fw.MachineryError(f'no Once member named {sem}')
+
+
+def dsl_kind(kind: str):
+    from forml.io import dsl
+
+    return {'integer': dsl.Integer(), 'float': dsl.Float(), 'string': dsl.String(), 'date': dsl.Date(),
+            'timestamp': dsl.Timestamp()}[kind]
+
+
+class _EnvBase:
+    """A storage + feed for one ordinal kind: `load(data)` makes `self.table` (DSL) / `self.feed` serve that data."""
+
+    kind: str
+    table: typing.Any
+    feed: typing.Any
+
+    def _init_common(self, kind: str):
+        from forml import flow
+
+        self.kind = kind
+        self.dslkind = dsl_kind(kind)
+
+        class Collect(flow.Visitor):
+            def __init__(self):
+                self.nodes = []
+
+            def visit_node(self, node):
+                self.nodes.append(node)
+
+        self.Collect = Collect
+
+    ocol = 'o'  # name of the ordinal column
+
+    def _dsl_table(self, title: str):
+        """DSL tables of equal field names and kinds are one and the same table whatever their title: every storage gets
+        its own name for the ordinal column."""
+        from forml.io import dsl
+
+        return dsl.Table(dsl.Schema.from_fields(dsl.Field(dsl.Integer(), name='rid'), dsl.Field(self.dslkind, name=self.ocol),
+                                                title=title))
+
+    def _sql_table(self, name: str):
+        import sqlalchemy
+        from forml.provider.feed.reader import alchemy as ralchemy
+
+        meta = sqlalchemy.MetaData()
+        return meta, sqlalchemy.Table(name, meta, sqlalchemy.Column('rid', sqlalchemy.Integer()),
+                                      sqlalchemy.Column(self.ocol, ralchemy.Parser.KIND[self.dslkind]))
+
+    @property
+    def ordinal_column(self):
+        return getattr(self.table, self.ocol)
+
+    def source(self, ordinal: bool, once, base=None, apply_base=None):
+        """`base`: None -> `t.select(t.rid)`; ['ne', k] -> the same with a prefilter `rid != k` (the ordinal predicate must be
+        AND-ed to it); ['table'] -> the bare table as the statement (ordinal column among the features); ['labels'] ->
+        `t.select(t.rid)` with the ordinal column also being the label column.  `apply_base`: ['ne', k] -> an explicit
+        apply-mode statement with its own prefilter (`Source.query(apply=...)`)."""
+        from forml import project
+
+        t = self.table
+        if base is None:
+            stmt = t.select(t.rid)
+        elif base[0] == 'ne':
+            stmt = t.select(t.rid).where(t.rid != base[1])
+        elif base[0] in ('table', 'labels'):
+            stmt = t if base[0] == 'table' else t.select(t.rid)
+        else:
+            raise fw.MachineryError(f'unknown base statement {base}')
+        apply = None
+        if apply_base is not None:
+            if apply_base[0] != 'ne' or (base is not None and base[0] == 'table'):
+                raise fw.MachineryError(f'unknown apply statement {apply_base} for base {base}')
+            apply = t.select(t.rid).where(t.rid != apply_base[1])
+        # ['labels']: label column -> the train path goes through `TableDriver` + `Slicer` and a re-selected statement
+        ocol = self.ordinal_column
+        return project.Source.query(stmt, labels=ocol if base is not None and base[0] == 'labels' else None, apply=apply,
+                                    ordinal=ocol if ordinal else None, once=once)
+
+    def launch(self, source, lower, upper, mode: str, ship: typing.Optional[str] = None) -> list[int]:
+        """One launch: `Feed.load` -> source operator -> its apply/train driver actor -> rows; `ship`: the component that
+        goes through a serialisation round trip before it is used."""
+        from forml import flow
+        from forml.io._input import extract as extmod
+
+        extract, feed = source.extract, self.feed
+        if ship and ship.startswith('ordinal') and extract.ordinal is not None:
+            # namedtuple `_replace` does not go through `Extract.__new__`: only the Ordinal is rebuilt
+            extract = extract._replace(ordinal=roundtrip(extract.ordinal, ship.partition('-')[2] or 'cloudpickle'))
+        if ship == 'feed':
+            feed = roundtrip(feed)
+        op = feed.load(extract, lower, upper)
+        trunk = op.compose(flow.Origin())
+        segment = trunk.apply if mode == 'apply' else trunk.train
+        visitor = self.Collect()
+        segment.accept(visitor)
+        workers = [n for n in visitor.nodes if hasattr(n, 'builder') and issubclass(n.builder.actor, extmod.Driver)]
+        if len(workers) != 1:
+            raise fw.MachineryError(f'expected one driver worker in the {mode} segment, got {visitor.nodes}')
+        builder = workers[0].builder
+        if ship == 'builder':
+            builder = roundtrip(builder)
+        elif ship == 'statement':
+            args = [roundtrip(a) if isinstance(a, extmod.Statement) else a for a in builder.args]
+            builder = builder.actor.builder(*args, **builder.kwargs)
+        rows = builder().apply()
+        return _rows_to_ids(rows.to_rows() if hasattr(rows, 'to_rows') else rows)
+
+
+class _Env(_EnvBase):
+    """One in-memory SQLite database + generic feed (bare reader, no result cache) per ordinal kind; the data table is
+    rewritten for every case."""
+
+    ships = SHIP_PLAIN
 
     def __init__(self, kind: str):
         import sqlalchemy
-        from forml import flow, io
-        from forml.io import dsl
+        from forml import io
         from forml.provider.feed.reader import alchemy as ralchemy
 
-        self.kind = kind
-        self.dslkind = {'integer': dsl.Integer(), 'float': dsl.Float(), 'string': dsl.String(), 'date': dsl.Date(),
-                        'timestamp': dsl.Timestamp()}[kind]
-        self.table = dsl.Table(dsl.Schema.from_fields(dsl.Field(dsl.Integer(), name='rid'),
-                                                      dsl.Field(self.dslkind, name='o'), title=f'C10{kind}'))
+        self._init_common(kind)
+        self.table = self._dsl_table(f'C10{kind}')
         self.engine = sqlalchemy.create_engine('sqlite:///:memory:')
         self.con = self.engine.connect()
-        meta = sqlalchemy.MetaData()
-        self.sqltable = sqlalchemy.Table('t', meta, sqlalchemy.Column('rid', sqlalchemy.Integer()),
-                                         sqlalchemy.Column('o', ralchemy.Parser.KIND[self.dslkind]))
+        meta, self.sqltable = self._sql_table('t')
         meta.create_all(self.con)
         self.data: typing.Optional[tuple] = None
         sources = {self.table: sqlalchemy.table('t')}
@@ -323,16 +468,7 @@ class _Env:
 
         self.feed = Feed(connection=self.con)
 
-        class Collect(flow.Visitor):
-            def __init__(self):
-                self.nodes = []
-
-            def visit_node(self, node):
-                self.nodes.append(node)
-
-        self.Collect = Collect
-
-    def load(self, data: typing.Sequence[int]) -> None:
+    def load(self, data: typing.Sequence[int], fresh: bool = False) -> None:  # pylint: disable=unused-argument
         data = tuple(data)
         if data == self.data:
             return
@@ -341,41 +477,50 @@ class _Env:
             self.con.execute(self.sqltable.insert(), [{'rid': i, 'o': DOM[self.kind][p]} for i, p in enumerate(data)])
         self.data = data
 
-    def source(self, ordinal: bool, once, base=None):
-        """`base`: None -> `t.select(t.rid)`; ['ne', k] -> the same with a prefilter `rid != k` (the ordinal predicate must be
-        AND-ed to it); ['table'] -> the bare table as the statement (ordinal column among the features); ['labels'] ->
-        `t.select(t.rid)` with the ordinal column also being the label column."""
-        from forml import project
 
-        t = self.table
-        if base is None:
-            stmt = t.select(t.rid)
-        elif base[0] == 'ne':
-            stmt = t.select(t.rid).where(t.rid != base[1])
-        elif base[0] in ('table', 'labels'):
-            stmt = t if base[0] == 'table' else t.select(t.rid)
-        else:
-            raise fw.MachineryError(f'unknown base statement {base}')
-        # ['labels']: label column -> the train path goes through `TableDriver` + `Slicer` and a re-selected statement
-        return project.Source.query(stmt, labels=t.o if base is not None and base[0] == 'labels' else None,
-                                    ordinal=t.o if ordinal else None, once=once)
+class _FileEnv(_EnvBase):
+    """The real provider feed `forml.provider.feed.alchemy.Feed` (result cache `Results`: in memory + parquet files under
+    $FORML_HOME/.cache/alchemy) over a SQLite *file*.  Every distinct data set is a table of its own that is written once
+    and never changed afterwards (unchanged storage), served by one feed instance for the whole run: consecutive windows
+    — of one case and of later cases over the same data — go through the same feed and the same caches, as the launches
+    of a real sequence do."""
 
-    def launch(self, source, lower, upper, mode: str) -> list[int]:
-        """One launch: `Feed.load` -> source operator -> its apply/train driver actor -> rows."""
-        from forml import flow
+    ships = SHIP_FILE
 
-        op = self.feed.load(source.extract, lower, upper)
-        trunk = op.compose(flow.Origin())
-        segment = trunk.apply if mode == 'apply' else trunk.train
-        visitor = self.Collect()
-        segment.accept(visitor)
-        from forml.io._input import extract as extmod
+    def __init__(self, kind: str, home: str, attach: bool = False):
+        import sqlalchemy
 
-        workers = [n for n in visitor.nodes if hasattr(n, 'builder') and issubclass(n.builder.actor, extmod.Driver)]
-        if len(workers) != 1:
-            raise fw.MachineryError(f'expected one driver worker in the {mode} segment, got {visitor.nodes}')
-        rows = workers[0].builder().apply()
-        return _rows_to_ids(rows.to_rows() if hasattr(rows, 'to_rows') else rows)
+        self._init_common(kind)
+        self.url = f'sqlite:///{home}/c10-{kind}.db'
+        self.engine = sqlalchemy.create_engine(self.url)
+        self.sets: dict[tuple, tuple] = {}
+        #: worker processes: a table that an earlier process of the same launch sequence created is used as it is
+        self.attach = attach
+
+    def load(self, data: typing.Sequence[int], fresh: bool = False) -> None:
+        """`fresh`: serve the data from a new table (and a new feed instance) that no launch has read yet — no entry of the
+        result caches can refer to it, i.e. the history that follows starts from empty caches (a witness found that way
+        reproduces in any new process)."""
+        from forml.provider.feed import alchemy
+
+        data = tuple(data)
+        if fresh or data not in self.sets:
+            # table names are unique over the whole run: the cache key is the SQL text alone (two databases holding a
+            # table of the same name would share entries: C06's subject, not C10's)
+            self.count = getattr(self, 'count', 0) + 1
+            name = f'{self.kind}_d{self.count}'
+            self.ocol = f'o{self.count}'
+            table = self._dsl_table(f'C10{self.kind}{name}')
+            meta, sqltable = self._sql_table(name)
+            import sqlalchemy
+
+            if not (self.attach and sqlalchemy.inspect(self.engine).has_table(name)):
+                with self.engine.begin() as con:
+                    meta.create_all(con)
+                    if data:
+                        con.execute(sqltable.insert(), [{'rid': i, self.ocol: DOM[self.kind][p]} for i, p in enumerate(data)])
+            self.sets[data] = (table, alchemy.Feed(sources={table: name}, connection=self.url), self.ocol)
+        self.table, self.feed, self.ocol = self.sets[data]
 
 
 def _rows_to_ids(rows) -> list[int]:
@@ -384,20 +529,32 @@ def _rows_to_ids(rows) -> list[int]:
 
 class C10(fw.Check):
     ID = 'C10'
-    LEAN_MODULES = ['ForML.Props.C10']
+    LEAN_MODULES = ['ForML.Props.C10', 'ForML.Lemmas.C10Ship', 'ForML.Lemmas.C10Cache', 'ForML.Lemmas.C10Chain']
     DRIVER = 'drv_c10'
     RULE = ('end-to-end (Source.query -> Feed.load -> extract.Operator -> apply/train driver -> Statement.Prepared -> alchemy '
-            'Parser -> SQLite): ordinal kind {integer,float,string,date,timestamp} x semantic spelling (all alias-table '
-            'spellings in random case, None, "") x increasing bound subsequence of a 7-point domain with optional open '
-            'first/last window (thorough: all 2^7 subsets x 3 semantics x 5 kinds, twice) x every bound in a random well-formed '
-            'spelling, each occurrence independently (native, str, float/int, Decimal, date, pandas.Timestamp, epoch ns, and '
-            'value-changing ones: fractional float/Decimal for Integer, time-of-day string/epoch for Date) x base statement {select, select with its own prefilter, '
-            'bare table, select with the ordinal as label column (TableDriver path)} x 4..12 random records from the domain; '
-            'incremental-training histories (real Runner.train on a real asset.Tag whose ordinal is recorded after every '
-            'training, 1..6 trainings, optional initial tag ordinal, falsy ordinals); a malformed stream with uncastable '
-            'bounds and a no-ordinal stream incl. falsy bounds (0, 0.0, "", False). A case is distinct by (kind, semantic, '
-            'windows/trainings with spellings, base, data) and non-trivial when some record is delivered and some is not. '
-            'unit level: Once spellings (incl. a near-miss probe universe), Extract ordinal/once consistency, kind.cast '
+            'Parser -> SQLite): ordinal kind {integer,float,string,date,timestamp} x semantic handed over as None / "" / any '
+            'alias-table spelling in random case / the enum member x increasing bound subsequence of a 7-point domain with '
+            'optional open first/last window (thorough: all 2^7 subsets x 3 semantics x 5 kinds, twice) x every bound in a '
+            'random well-formed spelling, each occurrence independently (native, str, float/int, Decimal, date, '
+            'pandas.Timestamp, epoch ns, and value-changing ones: fractional float/Decimal for Integer, time-of-day '
+            'string/epoch for Date) x base statement {select, select with its own prefilter, bare table, select with the '
+            'ordinal as label column (TableDriver path)} x optional explicit apply-mode statement x mode {apply, train} x feed '
+            '{generic io.Feed with the bare alchemy Reader over an in-memory database | the provider feed '
+            'forml.provider.feed.alchemy.Feed with its result cache (memory + parquet under a private FORML_HOME) over a '
+            'SQLite file, one table per data set written once, one feed instance per storage for the whole run, data from a '
+            'small pool so that later histories meet the cache entries of earlier ones} x component sent through a '
+            'cloudpickle/copy/deepcopy round trip before use {none, Ordinal, extract.Statement, driver actor builder, feed} x '
+            '4..12 random records; incremental-training histories (real Runner.train on a real asset.Tag whose ordinal is '
+            'recorded after every training, 1..6 trainings, optional initial tag ordinal, falsy ordinals; optionally every tag '
+            'committed to and read back from a real posix registry, Tag.dumps/Tag.loads); a malformed stream with uncastable '
+            'bounds and a no-ordinal stream incl. falsy bounds (0, 0.0, "", False); launch sequences in two worker '
+            'processes one after the other sharing one FORML_HOME (second one served from the on-disk cache) and through the '
+            'interactive launcher with the dask runner (scheduler processes). A case is distinct by (kind, semantic, '
+            'windows/trainings with spellings, base, data, feed, shipped component, member, mode) and non-trivial when some '
+            'record is delivered and some is not. Violations on the caching feed are re-run from empty caches (fresh table) '
+            'and minimised, if necessary together with the earlier launch sequence against the same feed that they depend on. '
+            'unit level: Once spellings (incl. a near-miss probe universe), Ordinal construction from every spelling / the '
+            'member and its reconstruction by cloudpickle/copy/deepcopy, Extract ordinal/once consistency, kind.cast '
             'classes, Ordinal.where terms, Prepared.__call__, Runner.train/apply bound passing.')
     TRUSTED = [
         'that each kind\'s values are linearly ordered the same way by Python (bounds), by SQLite through the SQLAlchemy '
@@ -408,27 +565,54 @@ class C10(fw.Check):
         '(DOC_INCLUDES), value classes (pyclass)',
         'incremental training: the caller records the upper bound of a training as the ordinal of the tag the next training '
         'starts from (forml\'s runner reads tag.training.ordinal but never writes it)',
+        'result cache: sha256 and the SQL rendering with literals are injective on the statements of one table (C06); the '
+        'model keys the cache by the window predicate itself',
+        'cloudpickle / copy rebuild a namedtuple through cls.__new__(cls, *fields) and an enum member by value (modelled as '
+        'OrdinalSpec.reconstruct; compared with the real round trips on every run)',
     ]
     ASSUMPTIONS = [
         'ordinal values are non-null, not NaN and exactly representable in the storage (no float rounding, ASCII strings)',
         'bound spellings outside the generated classes (datetime for a Date ordinal, bool for an Integer ordinal: refused '
         'by the DSL with GrammarError) are covered at the cast level only',
         'records do not arrive late (a record with ordinal <= an already processed upper bound is outside the model)',
-        'the data does not change between the launches of one history',
+        'the data does not change between the launches of one history (a storage changing behind the result cache is C06)',
+        'table names are unique over all databases that share a FORML_HOME (the cache key is the SQL text alone: C06)',
+        'an ordinal recorded in a tag is of a type TOML keeps (int, float, str, date, datetime; Decimal as number); a '
+        'pandas.Timestamp is written as its repr (tag persistence: C18)',
+        'shipped statements do not select all fields of a Schema.from_fields table whose .schema was computed before '
+        '(un-pickling such a statement mutates the shared schema class: a DSL pickling matter, C08)',
     ]
 
-    def __init__(self, tier, seed):
+    def __init__(self, tier, seed, home: typing.Optional[str] = None, attach: bool = False):
         super().__init__(tier, seed)
-        self._envs: dict[str, _Env] = {}
+        self._envs: dict[tuple, _EnvBase] = {}
+        self._attach = attach
+        # a private, empty FORML_HOME (before forml is imported): the alchemy feed keeps its on-disk result cache there
+        if home is None:
+            home = tempfile.mkdtemp(prefix='verif-c10-home-')
+            atexit.register(shutil.rmtree, home, ignore_errors=True)
+        os.makedirs(home, exist_ok=True)
+        self._home = home
+        os.environ['FORML_HOME'] = self._home
 
     # ---- tables ------------------------------------------------------------------------------
     def gen_tables(self):
         return {GEN_REL: render_tables()}
 
-    def env(self, kind: str) -> _Env:
-        if kind not in self._envs:
-            self._envs[kind] = _Env(kind)
-        return self._envs[kind]
+    def env(self, kind: str, feed: typing.Optional[str] = None) -> _EnvBase:
+        feed = feed or 'plain'
+        if (kind, feed) not in self._envs:
+            if feed == 'plain':
+                self._envs[kind, feed] = _Env(kind)
+            elif feed == 'alchemy':
+                from forml import setup
+
+                if os.path.realpath(str(setup.USRDIR)) != os.path.realpath(self._home):
+                    raise fw.MachineryError(f'forml was imported before the private FORML_HOME was set ({setup.USRDIR})')
+                self._envs[kind, feed] = _FileEnv(kind, self._home, self._attach)
+            else:
+                raise fw.MachineryError(f'unknown feed {feed}')
+        return self._envs[kind, feed]
 
     # ---- end-to-end --------------------------------------------------------------------------
     def _spelling(self, sem: str) -> typing.Optional[str]:
@@ -467,6 +651,22 @@ class C10(fw.Check):
     def _data(self) -> list[int]:
         return [self.rng.randrange(NPT) for _ in range(self.rng.randint(4, 12))]
 
+    def _transport(self, case: dict, sem: str, pool: list, p_feed: float = 0.3) -> None:
+        """How the semantic is handed over (spelling | enum member), which feed serves the data (plain reader | the
+        provider feed with its result caches, data from the pool) and which component is shipped before use."""
+        rng = self.rng
+        if rng.random() < 0.15:
+            case['once'], case['member'] = sem, True
+        else:
+            case['once'] = self._spelling(sem)
+        if rng.random() < p_feed:
+            case['feed'] = 'alchemy'
+            case['data'] = list(rng.choice(pool))
+        else:
+            case['data'] = self._data()
+        if rng.random() < 0.35:
+            case['ship'] = rng.choice(SHIP_FILE if case.get('feed') == 'alchemy' else SHIP_PLAIN)
+
     def _e2e_cases(self) -> list[dict]:
         rng = self.rng
         cases = []
@@ -496,6 +696,26 @@ class C10(fw.Check):
                     cases.append({'kind': kind, 'once': sem, 'ordinal': True, 'open': [False, False], 'mode': 'train',
                                   'windows': [[[0, 'native'], [a, form]], [[a, 'native'], [b, form]], [[b, form], [6, 'native']]],
                                   'data': full})
+            # one feed with a result cache: consecutive windows of the same shape that differ in the bound values only,
+            # the same history again later (cache hits), both modes; and the components of the extraction path after a
+            # serialisation round trip, with the semantic given as a spelling / as the enum member
+            for sem in ('exactly', 'atmost', 'atleast'):
+                closed = [[[1, 'native'], [2, 'native']], [[2, 'native'], [4, 'native']], [[4, 'native'], [5, 'native']]]
+                half = [[None, [1, 'native']], [None, [3, 'native']], [[3, 'native'], None], [[5, 'native'], None]]
+                for mode in ('apply', 'train'):
+                    cases.append({'kind': kind, 'once': sem, 'ordinal': True, 'open': [False, False], 'feed': 'alchemy',
+                                  'windows': closed, 'data': full, 'mode': mode})
+                cases.append({'kind': kind, 'once': sem, 'ordinal': True, 'open': [False, False], 'feed': 'alchemy',
+                              'windows': half, 'data': full, 'mode': 'apply'})
+                cases.append({'kind': kind, 'once': sem, 'ordinal': True, 'open': [False, False], 'feed': 'alchemy',
+                              'windows': closed[1:] + closed[:1], 'data': full, 'mode': 'train', 'base': ['labels']})
+                for ship, feed in (('builder', 'alchemy'), ('statement', 'plain'), ('ordinal-deepcopy', 'plain')):
+                    for member in (False, True):
+                        cases.append({'kind': kind, 'once': sem, 'member': member, 'ordinal': True, 'open': [False, False],
+                                      'feed': feed, 'ship': ship, 'windows': closed[:2], 'data': full, 'mode': 'apply'})
+                cases.append({'kind': kind, 'once': sem, 'member': True, 'ordinal': True, 'open': [True, True],
+                              'windows': [[None, [2, 'native']], [[2, 'native'], [4, 'native']], [[4, 'native'], None]],
+                              'data': full, 'mode': 'train'})
             # no ordinal: bounds must be refused, also the falsy ones (point 2 of integer/float, 0 of string)
             falsy = {'integer': 2, 'float': 2, 'string': 0}.get(kind, 3)
             cases.append({'kind': kind, 'once': None, 'ordinal': False, 'open': [False, False],
@@ -508,40 +728,61 @@ class C10(fw.Check):
         else:
             combos = [(k, s, [i for i in range(NPT) if mask >> i & 1])
                       for k in KINDS for s in ('exactly', 'atmost', 'atleast') for mask in range(2 ** NPT) for _ in (0, 1)]
+        # data sets of the cases that go through the caching feed: a small pool, so that later cases meet the entries that
+        # earlier ones left in the caches (same table, same or same-shaped statements)
+        pool = [full, full + full] + [self._data() for _ in range(4)]
         for kind, sem, bounds in combos:
             open_lo, open_hi = rng.random() < 0.4, rng.random() < 0.4
             if not bounds:
                 open_lo = True
-            data = self._data()
-            base = rng.choice([None, None, None, None, None, None, ['ne', rng.randrange(len(data))],
-                               ['ne', rng.randrange(len(data))], ['table'], ['labels']])
-            cases.append({'kind': kind, 'once': self._spelling(sem), 'ordinal': True, 'open': [open_lo, open_hi],
-                          'windows': self._windows(kind, bounds, open_lo, open_hi), 'data': data,
-                          'mode': rng.choice(['apply', 'train']), 'base': base})
+            case = {'kind': kind, 'ordinal': True, 'open': [open_lo, open_hi],
+                    'windows': self._windows(kind, bounds, open_lo, open_hi), 'mode': rng.choice(['apply', 'train'])}
+            self._transport(case, sem, pool)
+            data = case['data']
+            case['base'] = rng.choice([None, None, None, None, None, None, ['ne', rng.randrange(len(data))],
+                                       ['ne', rng.randrange(len(data))], ['table'], ['labels']])
+            if (case['base'] is None or case['base'][0] != 'table') and rng.random() < 0.15:
+                case['apply_base'] = ['ne', rng.randrange(len(data))]  # an explicit apply-mode statement
+            if case['base'] == ['table'] and case.get('ship') in ('statement', 'builder'):
+                # not a C10 matter (see design.d/C10.md, observations): un-pickling a statement that selects *all* fields of
+                # a `Schema.from_fields` table, once its `.schema` was computed, adds the fields to the shared schema
+                # class a second time and changes the table's hash (UnprovisionedError ever after)
+                case['ship'] = 'ordinal'
+            cases.append(case)
         # malformed stream: uncastable bounds must be refused with CastError
         for _ in range(self.n(60, 400)):
             kind = rng.choice([k for k in KINDS if k != 'string'])
             bounds = sorted(rng.sample(range(NPT), rng.randint(1, 4)))
-            cases.append({'kind': kind, 'once': self._spelling(rng.choice(['exactly', 'atmost', 'atleast'])),
-                          'ordinal': True, 'open': [True, True], 'windows': self._windows(kind, bounds, True, True, 0.4),
-                          'data': self._data(), 'mode': 'apply', 'malformed': True})
+            case = {'kind': kind, 'ordinal': True, 'open': [True, True], 'windows': self._windows(kind, bounds, True, True, 0.4),
+                    'mode': 'apply', 'malformed': True}
+            self._transport(case, rng.choice(['exactly', 'atmost', 'atleast']), pool)
+            cases.append(case)
         # no-ordinal stream
         for _ in range(self.n(60, 400)):
             kind = rng.choice(KINDS)
             bounds = sorted(rng.sample(range(NPT), rng.randint(1, 4)))
-            cases.append({'kind': kind, 'once': rng.choice([None, None, '']), 'ordinal': False, 'open': [True, True],
-                          'windows': self._windows(kind, bounds, True, True) + [[None, None]], 'data': self._data(),
-                          'mode': rng.choice(['apply', 'train'])})
+            case = {'kind': kind, 'ordinal': False, 'open': [True, True],
+                    'windows': self._windows(kind, bounds, True, True) + [[None, None]], 'mode': rng.choice(['apply', 'train'])}
+            self._transport(case, 'exactly', pool)
+            case.pop('member', None)
+            case['once'] = rng.choice([None, None, ''])
+            cases.append(case)
         return cases + self._chain_cases()
 
-    def _run_e2e(self, case: dict):
-        """Real code: [('ok', [rid…]) | ('error', ExcName)] per window, or ('ctor-error', ExcName)."""
+    def _run_e2e(self, case: dict, fresh: bool = False):
+        """Real code: [('ok', [rid…]) | ('error', ExcName)] per window, or ('ctor-error', ExcName).  A `session` is a
+        list of such cases over the same storage and feed, launched one after the other: one result per member."""
+        if case.get('session'):
+            subs = case['session']
+            if len({(c['kind'], tuple(c['data']), c.get('feed')) for c in subs}) != 1:
+                raise fw.MachineryError('a session is over one storage and one feed')
+            return [self._run_e2e(sub, fresh=fresh and i == 0) for i, sub in enumerate(subs)]
         if case.get('chain'):
-            return self._run_chain(case)
-        env = self.env(case['kind'])
-        env.load(case['data'])
+            return self._run_chain(case, fresh)
+        env = self.env(case['kind'], case.get('feed'))
+        env.load(case['data'], fresh)
         try:
-            source = env.source(case['ordinal'], case['once'], case.get('base'))
+            source = env.source(case['ordinal'], self._once_value(case), case.get('base'), case.get('apply_base'))
         except Exception as e:  # pylint: disable=broad-except
             return ('ctor-error', exc_name(e))
         out = []
@@ -549,7 +790,7 @@ class C10(fw.Check):
             lower = None if lo is None else value(case['kind'], *lo)
             upper = None if hi is None else value(case['kind'], *hi)
             try:
-                out.append(['ok'] + env.launch(source, lower, upper, case.get('mode', 'apply')))
+                out.append(['ok'] + env.launch(source, lower, upper, case.get('mode', 'apply'), case.get('ship')))
             except fw.MachineryError:
                 raise
             except Exception as e:  # pylint: disable=broad-except
@@ -557,20 +798,32 @@ class C10(fw.Check):
         return out
 
     @staticmethod
+    def _once_value(case: dict):
+        """What is handed to `Source.query(once=...)`: the spelling, or the live enum member of the semantic it names."""
+        return live_member(spec_sem(case['once'])) if case.get('member') else case['once']
+
+    @staticmethod
     def _kept(case: dict) -> list[int]:
-        """Record ids that the base statement denotes (the model sees only those, in this order)."""
+        """Record ids that the base statement of the launched mode denotes (the model sees only those, in this order)."""
         base = case.get('base')
+        if case.get('apply_base') is not None and case.get('mode', 'apply') == 'apply' and not case.get('chain'):
+            base = case['apply_base']
         return [i for i in range(len(case['data'])) if not (base and base[0] == 'ne' and base[1] == i)]
 
     @classmethod
     def _model_line(cls, case: dict) -> str:
         kind = case['kind']
-        ord_ = [kind, spec_sem(case['once'])] if case['ordinal'] else None
         data = [case['data'][i] for i in cls._kept(case)]
+        # the model resolves the semantic from what the caller hands over (None | spelling | member), rebuilds the
+        # ordinal specs once per round trip and reads through a result cache when the feed has one
+        arg = None if case['once'] is None else ['m', spec_sem(case['once'])] if case.get('member') else ['s', case['once']]
+        ships = 1 if case.get('ship') in SHIP_REBUILDS and case['ordinal'] else 0
         if case.get('chain'):
-            return sexp.dumps(['chain', ord_, raw_sexp(kind, case['tag0']), [raw_sexp(kind, u) for u in case['uppers']], data])
+            return sexp.dumps(['xchain', kind if case['ordinal'] else None, arg, ships, case.get('feed') == 'alchemy',
+                               bool(case.get('persist')), raw_sexp(kind, case['tag0']),
+                               [raw_sexp(kind, u) for u in case['uppers']], data])
         wins = [[raw_sexp(kind, lo), raw_sexp(kind, hi)] for lo, hi in case['windows']]
-        return sexp.dumps(['windows', ord_, wins, data])
+        return sexp.dumps(['xwindows', kind if case['ordinal'] else None, arg, ships, case.get('feed') == 'alchemy', wins, data])
 
     @classmethod
     def _model_answer(cls, case: dict, ans: str):
@@ -579,11 +832,13 @@ class C10(fw.Check):
         mod = sexp.num(sexp.loads(ans))
         if case.get('chain'):
             if isinstance(mod, list) and mod and mod[0] == 'ok':
-                return ['ok', [None if r == 'none' else r[:2] for r in mod[1]], [[kept[j] for j in l] for l in mod[2]]]
+                return ['ok', [None if r == 'none' else r[1:2] for r in mod[1]], [[kept[j] for j in l] for l in mod[2]]]
             return mod
-        if not isinstance(mod, list):
+        if not isinstance(mod, list) or len(mod) != 2 or mod[0] not in ('ok', 'error'):
             return mod
-        return [[r[0]] + [kept[j] for j in r[1:]] if isinstance(r, list) and r and r[0] == 'ok' else r for r in mod]
+        if mod[0] == 'error':
+            return ('ctor-error', mod[1])
+        return [[r[0]] + [kept[j] for j in r[1:]] if isinstance(r, list) and r and r[0] == 'ok' else r for r in mod[1]]
 
     @staticmethod
     def _consecutive(case: dict) -> typing.Optional[tuple[list, bool, bool]]:
@@ -614,8 +869,45 @@ class C10(fw.Check):
 
     def _oracle_e2e(self, case: dict, impl) -> list[tuple[str, str, dict]]:
         """The property itself on the implementation's output. Returns [(what, signature, detail)]."""
-        if case.get('chain'):
-            return self._oracle_chain(case, impl)
+        if case.get('session'):
+            out = []
+            for i, (sub, im) in enumerate(zip(case['session'], impl)):
+                n = len(case['session'])
+                out += [(f'{what} [sequence {i + 1} of {n} launched one after the other against the same feed]', sig,
+                         {**(detail or {}), 'sequence': i}) for what, sig, detail in self._oracle_e2e(sub, im)]
+            return out
+        note = self._transport_note(case)
+        raw = self._oracle_chain(case, impl) if case.get('chain') else self._oracle_windows(case, impl)
+        return [(what + note, sig, detail) for what, sig, detail in raw]
+
+    @staticmethod
+    def _transport_note(case: dict) -> str:
+        """How the case reached the storage, for the violation text."""
+        parts = []
+        if case.get('member'):
+            parts.append('semantic given as the enum member')
+        elif case.get('ordinal'):
+            parts.append(f"once={case['once']!r}")
+        if case.get('ship'):
+            how = {'ordinal': 'the Ordinal specs sent through cloudpickle', 'ordinal-copy': 'the Ordinal specs copied with copy.copy',
+                   'ordinal-deepcopy': 'the Ordinal specs copied with copy.deepcopy',
+                   'statement': 'the extract.Statement of the driver sent through cloudpickle',
+                   'builder': 'the driver actor builder sent through cloudpickle (as a runner ships it to a worker process)',
+                   'feed': 'the feed sent through cloudpickle'}.get(case['ship'], case['ship'])
+            parts.append(how)
+        if case.get('platform'):
+            parts = parts[:1] + ['forml.provider.feed.alchemy.Feed']
+        elif case.get('feed') == 'alchemy':
+            parts.append('read through one forml.provider.feed.alchemy.Feed (result cache) starting from empty caches')
+        if case.get('persist'):
+            parts.append('tags committed to and read back from a registry between the trainings')
+        if case.get('apply_base'):
+            parts.append('explicit apply-mode statement')
+        if not case.get('chain'):
+            parts.append(f"{case.get('mode', 'apply')} mode")
+        return ' {' + '; '.join(parts) + '}' if parts else ''
+
+    def _oracle_windows(self, case: dict, impl) -> list[tuple[str, str, dict]]:
         out = []
         kind = case['kind']
         if isinstance(impl, tuple):
@@ -721,16 +1013,37 @@ class C10(fw.Check):
         return repr([[None if b is None else value(kind, *b) for b in w] for w in case['windows']])
 
     # ---- incremental training (window chaining through the training tag) --------------------------
+    @staticmethod
+    def _persisted(case: dict) -> dict:
+        """Mark a training history as one whose tags go through the registry.  A `pandas.Timestamp` recorded as a tag's
+        ordinal is written as its `repr` (toml's fallback for unknown types) and reads back as that string — a matter of
+        tag persistence (C18), not of windows: such ordinals are recorded as the plain `datetime` of the same instant."""
+        nat = lambda b: None if b is None else [b[0], 'native' if b[1] == 'pdts' else b[1]]  # noqa: E731
+        case.update(persist=True, tag0=nat(case['tag0']), uppers=[nat(u) for u in case['uppers']])
+        return case
+
     def _chain_cases(self) -> list[dict]:
         rng = self.rng
         cases = []
         full = list(range(NPT))
+        pool = [full, full + full] + [self._data() for _ in range(2)]
         for kind in KINDS:
             for sem in ('exactly', 'atmost', 'atleast'):
                 cases.append({'chain': True, 'kind': kind, 'once': sem, 'ordinal': True, 'tag0': None,
                               'uppers': [[1, 'native'], [2, 'native'], [4, 'native'], [5, 'native']], 'data': full + full})
                 cases.append({'chain': True, 'kind': kind, 'once': sem, 'ordinal': True, 'tag0': [0, 'native'],
                               'uppers': [[2, 'native'], [3, 'native']], 'data': full})
+                # the same through the registry, the caching feed and a shipped driver; every non-native spelling recorded
+                cases.append({'chain': True, 'kind': kind, 'once': sem, 'ordinal': True, 'tag0': None, 'persist': True,
+                              'feed': 'alchemy', 'ship': 'builder',
+                              'uppers': [[1, 'native'], [2, 'native'], [4, 'native'], [5, 'native']], 'data': full})
+                cases.append({'chain': True, 'kind': kind, 'once': sem, 'member': True, 'ordinal': True, 'persist': True,
+                              'tag0': [0, 'native'], 'uppers': [[2, 'native'], [3, 'native']], 'data': full})
+            for form in sorted({f for p in range(NPT) for f in forms(kind, p)} - {'native', 'pdts'}):
+                elig = [p for p in range(NPT) if form in forms(kind, p)]
+                if len(elig) >= 3:
+                    cases.append({'chain': True, 'kind': kind, 'once': 'atleast', 'ordinal': True, 'persist': True,
+                                  'tag0': [elig[0], form], 'uppers': [[elig[1], form], [elig[-1], form]], 'data': full})
         falsy = {'integer': 2, 'float': 2, 'string': 0}
         for kind, p in falsy.items():  # a falsy ordinal recorded in the tag must still be honoured
             for sem in ('exactly', 'atmost', 'atleast'):
@@ -750,8 +1063,11 @@ class C10(fw.Check):
 
             tag0 = spell(pts[0]) if len(pts) > 1 and rng.random() < 0.35 else None
             uppers = [spell(q) for q in (pts[1:] if tag0 is not None else pts)]
-            cases.append({'chain': True, 'kind': kind, 'once': self._spelling(rng.choice(['exactly', 'atmost', 'atleast'])),
-                          'ordinal': True, 'tag0': tag0, 'uppers': uppers, 'data': self._data()})
+            case = {'chain': True, 'kind': kind, 'ordinal': True, 'tag0': tag0, 'uppers': uppers}
+            self._transport(case, rng.choice(['exactly', 'atmost', 'atleast']), pool, p_feed=0.2)
+            if rng.random() < 0.5:
+                self._persisted(case)
+            cases.append(case)
         # no ordinal: the very first training (upper bound given) must be refused
         for kind in KINDS:
             cases.append({'chain': True, 'kind': kind, 'once': None, 'ordinal': False, 'tag0': None,
@@ -770,7 +1086,7 @@ class C10(fw.Check):
             self._runner = Runner
         return self._runner
 
-    def _run_chain(self, case: dict):
+    def _run_chain(self, case: dict, fresh: bool = False):
         """Real `Runner.train(upper=u)` per training on an instance double whose tag is a real `asset.Tag`; the ordinal of
         the tag the next training starts from is recorded with the real `tag.training.replace(ordinal=u)`; what the
         runner hands to `Feed.load` is then really loaded (feed -> source operator -> train driver -> SQLite).
@@ -781,12 +1097,12 @@ class C10(fw.Check):
             pass
 
         kind = case['kind']
-        env = self.env(kind)
-        env.load(case['data'])
+        env = self.env(kind, case.get('feed'))
+        env.load(case['data'], fresh)
         try:
-            source = env.source(case['ordinal'], case['once'], case.get('base'))
+            source = env.source(case['ordinal'], self._once_value(case), case.get('base'))
         except Exception as e:  # pylint: disable=broad-except
-            return ['error', 'ctor:' + exc_name(e)]
+            return ['error', exc_name(e)]
         seen: list = []
 
         class Feed:
@@ -794,6 +1110,9 @@ class C10(fw.Check):
                 seen.append((extract, lower, upper))
                 raise Stop()
 
+        # `persist`: every tag is committed to a real registry (posix provider under the private home: `Tag.dumps` ->
+        # file -> `Tag.loads`) and the training that follows starts from the tag *read back*, as a launch of its own does
+        commit = self._committer() if case.get('persist') else (lambda t: t)
         # a tag carries training attributes only once it has a training timestamp (`Tag.__new__` drops a falsy mode)
         stamp = TS(2020, 1, 1)
         tag = asset.Tag()
@@ -802,6 +1121,7 @@ class C10(fw.Check):
             tag = tag.training.trigger(stamp).training.replace(ordinal=value(kind, *tagspec))
             if tag.training.ordinal is None:
                 raise fw.MachineryError('Tag double lost the ordinal')
+            tag = commit(tag)  # whatever the registry makes of it is what the first training starts from
         lowers, rows = [], []
         for u in case['uppers']:
             upper = value(kind, *u)
@@ -818,22 +1138,49 @@ class C10(fw.Check):
                 raise fw.MachineryError(f'Runner.train double: feed saw {seen}')
             given = upper
             lower, upper = seen[0][1], seen[0][2]  # what the runner really asks the feed for
-            if lower is None:
-                lowers.append(None)
-            elif tagspec is not None and lower is tag.training.ordinal:
-                lowers.append(raw_sexp(kind, tagspec)[:2])
-            else:
-                lowers.append(['other', repr(lower)])
+            # compared with the model by the point the bound denotes in the column's kind (its Python class is mechanism: a
+            # Decimal recorded in a tag reads back as an int or a float)
+            lowers.append(None if lower is None else self._describe(kind, lower)[1:])
             try:
-                rows.append(env.launch(source, lower, upper, 'train'))
+                rows.append(env.launch(source, lower, upper, 'train', case.get('ship')))
             except fw.MachineryError:
                 raise
             except Exception as e:  # pylint: disable=broad-except
                 return ['error', exc_name(e)]
             # what `Runner.train` does to the tag (`trigger`), then the caller records how far this training got
-            tag = tag.training.trigger(stamp).training.replace(ordinal=given)
+            tag = commit(tag.training.trigger(stamp).training.replace(ordinal=given))
             tagspec = u
         return ['ok', lowers, rows]
+
+    @staticmethod
+    def _describe(kind: str, v) -> list:
+        """[value class, domain point denoted in the column's kind | 'unknown'] of a bound as the feed was given it"""
+        try:
+            pt = DOM[kind].index(spec_cast(kind, v))
+        except Exception:  # pylint: disable=broad-except
+            pt = 'unknown'
+        return [pyclass(v, 'badstr' if isinstance(v, str) and pt == 'unknown' else 'native'), pt]
+
+    def _committer(self):
+        """-> commit(tag): write the tag as the next generation of a project of its own in a posix registry under the
+        private home, return it as read back (what `asset.Instance.tag` of the next launch is)."""
+        from forml.io import asset
+        from forml.provider.registry.filesystem import posix
+
+        if not hasattr(self, '_registry'):
+            self._registry = posix.Registry(os.path.join(self._home, 'registry'))
+            self._projects = 0
+        self._projects += 1
+        project, release = asset.Project.Key(f'c10-{self._projects}'), asset.Release.Key('1')
+        generation = [0]
+
+        def commit(tag):
+            generation[0] += 1
+            key = asset.Generation.Key(generation[0])
+            self._registry.close(project, release, key, tag)
+            return self._registry.open(project, release, key)
+
+        return commit
 
     def _oracle_chain(self, case: dict, impl) -> list:
         kind = case['kind']
@@ -852,8 +1199,8 @@ class C10(fw.Check):
             return [('incremental training accepted an uncastable bound', 'uncastable-bound-accepted', {})]
         out = []
         for k, (got, spec) in enumerate(zip(impl[1], [tag0] + uppers[:-1])):
-            want = None if spec is None else raw_sexp(kind, spec)[:2]
-            if got != want:
+            # the lower bound denotes (in the column's kind) the ordinal recorded with the generation the training started from
+            if (None if got is None else got[0]) != (None if spec is None else spec[0]):
                 tagval = None if spec is None else value(kind, *spec)
                 out.append((f'training {k} (no explicit lower bound) extracted from lower={got} although the tag it started '
                             f'from records ordinal {tagval!r}', 'chain-lower-not-tag-ordinal:' +
@@ -867,22 +1214,36 @@ class C10(fw.Check):
         cases = self._e2e_cases()
         answers = self.model([self._model_line(c) for c in cases])
         shrunk: set[str] = set()
+        deferred: list = []
+        self._cached_log: dict[tuple, list] = {}
         for case, ans in zip(cases, answers):
+            if case.get('feed') == 'alchemy':
+                self._cached_log.setdefault((case['kind'], tuple(case['data'])), []).append(case)
             impl = self._run_e2e(case)
             mod = self._model_answer(case, ans)
             semname = spec_sem(case['once']) if case['ordinal'] else 'no-ordinal'
             if case.get('chain'):
-                shape = f"chain {case['kind']} {semname} trainings={min(len(case['uppers']), 4)}{'+' if len(case['uppers']) > 4 else ''}"
+                shape = (f"chain {case['kind']} {semname} {'committed-tags ' if case.get('persist') else ''}"
+                         f"{'cached-feed ' if case.get('feed') == 'alchemy' else ''}"
+                         f"{'shipped=' + case['ship'] + ' ' if case.get('ship') else ''}{'member ' if case.get('member') else ''}"
+                         f"trainings={min(len(case['uppers']), 4)}{'+' if len(case['uppers']) > 4 else ''}")
                 delivered = {rid for r in impl[2] for rid in r} if impl[0] == 'ok' else set()
-                key = ('chain', case['kind'], semname, repr(case['tag0']), repr(case['uppers']), tuple(case['data']))
+                key = ('chain', case['kind'], semname, repr(case['tag0']), repr(case['uppers']), tuple(case['data']),
+                       bool(case.get('persist')), case.get('feed'), case.get('ship'), bool(case.get('member')))
             else:
                 nwin = len(case['windows'])
                 shape = (f"e2e {case['kind']} {semname} {'malformed ' if case.get('malformed') else ''}"
                          f"{'base=' + case['base'][0] + ' ' if case.get('base') else ''}"
+                         f"{'apply-stmt ' if case.get('apply_base') else ''}"
+                         f"{'cached-feed ' if case.get('feed') == 'alchemy' else ''}"
+                         f"{'shipped=' + case['ship'] + ' ' if case.get('ship') else ''}"
+                         f"{'member ' if case.get('member') else ''}"
                          f"windows={min(nwin, 4)}{'+' if nwin > 4 else ''}")
                 delivered = ({rid for r in impl if isinstance(r, list) and r[0] == 'ok' for rid in r[1:]}
                              if isinstance(impl, list) else set())
-                key = (case['kind'], semname, case['ordinal'], repr(case['windows']), tuple(case['data']), repr(case.get('base')))
+                key = (case['kind'], semname, case['ordinal'], repr(case['windows']), tuple(case['data']), repr(case.get('base')),
+                       repr(case.get('apply_base')), case.get('feed'), case.get('ship'), bool(case.get('member')),
+                       case.get('mode'))
             self.case(key, shape, nontrivial=0 < len(delivered) < len(case['data']) or not case['ordinal'],
                       sample={'case': case, 'delivered': impl})
             if impl != mod:
@@ -891,60 +1252,130 @@ class C10(fw.Check):
                 if sig in shrunk:  # one minimised witness per root cause is enough
                     continue
                 shrunk.add(sig)
-                small = self._shrink(case, sig)
-                self.violate(what if small is case else self._oracle_first(small, sig) or what,
-                             {'kind': 'e2e', 'case': small}, sig, detail if small is case else None)
+                if case.get('feed') == 'alchemy' and not self._fails(case, sig):
+                    deferred.append((case, what, sig, detail))  # needs the feed's earlier history: looked for at the end
+                elif len(self.violations) < self.MAX_E2E_REPORTS:
+                    self._report(case, what, sig, detail)
+        for case, what, sig, detail in deferred:
+            if len(self.violations) < self.MAX_E2E_REPORTS and not (self.violations and time.time() > self._deadline()):
+                self._report(case, what, sig, detail, single=False)
+
+    #: distinct end-to-end signatures that are turned into minimised witnesses in one run (further ones repeat the story)
+    MAX_E2E_REPORTS = 8
+
+    def _report(self, case: dict, what: str, sig: str, detail=None, single: bool = True) -> None:
+        """Turn a violation seen on `case` into one with a self-contained, minimised failing input."""
+        small = self._witness(case, sig, single)
+        if small is None:  # seen once, not reproduced from empty caches: report what was seen, with the input as it was
+            self.violate(what + ' [seen in the running history of the feed; not reproduced from empty result caches]',
+                         {'kind': 'e2e', 'case': case}, sig, detail)
+            return
+        self.violate(what if small is case else self._oracle_first(small, sig) or what, {'kind': 'e2e', 'case': small}, sig,
+                     detail if small is case else None)
 
     def _oracle_first(self, case, sig):
-        for what, s, _ in self._oracle_e2e(case, self._run_e2e(case)):
+        for what, s, _ in self._oracle_e2e(case, self._run_e2e(case, fresh=True)):
             if s == sig:
                 return what
         return None
 
     def _fails(self, case, sig) -> bool:
-        return any(s == sig for _, s, _ in self._oracle_e2e(case, self._run_e2e(case)))
+        """Does the case — started from empty result caches — break the property with this signature?"""
+        return any(s == sig for _, s, _ in self._oracle_e2e(case, self._run_e2e(case, fresh=True)))
+
+    def _deadline(self) -> float:
+        """Wall-clock limit for minimising witnesses (all of them together): beyond it failing inputs are reported as found."""
+        if not hasattr(self, '_shrink_until'):
+            self._shrink_until = time.time() + (20 if self.quick else 120)
+        return self._shrink_until
+
+    def _witness(self, case: dict, sig: str, single: bool = True) -> typing.Optional[dict]:
+        """A self-contained failing input for a violation seen on `case`: the case itself if it fails when started from
+        empty caches; otherwise (the feed's caches carried something over from an earlier launch sequence against the
+        same storage) that earlier sequence followed by the case — the latest single predecessor that suffices, else
+        the whole history."""
+        if single and self._fails(case, sig):
+            return self._shrink(case, sig)
+        history = self._cached_log.get((case['kind'], tuple(case['data'])), [])
+        if any(c is case for c in history):
+            history = history[:[c is case for c in history].index(True)]
+        for prev in reversed(history[-16:]):
+            if time.time() > self._deadline() + 8:
+                break
+            session = {'session': [prev, case]}
+            if self._fails(session, sig):
+                return self._shrink(session, sig)
+        session = {'session': history + [case]}
+        if history and self._fails(session, sig):
+            return session
+        return None
 
     @staticmethod
     def _drop_record(case: dict, i: int) -> dict:
         out = {**case, 'data': case['data'][:i] + case['data'][i + 1:]}
-        base = case.get('base')
-        if base and base[0] == 'ne':
-            out['base'] = None if base[1] == i else ['ne', base[1] - (1 if i < base[1] else 0)]
+        for opt in ('base', 'apply_base'):
+            base = case.get(opt)
+            if base and base[0] == 'ne':
+                out[opt] = None if base[1] == i else ['ne', base[1] - (1 if i < base[1] else 0)]
         return out
 
+    def _cands(self, best: dict) -> list[dict]:
+        """Smaller neighbours of a failing case: fewer launch sequences, fewer records, plain transport (no round trip,
+        plain reader, spelling instead of member), fewer windows/trainings, native spellings."""
+        if best.get('session'):
+            subs = best['session']
+            out = []
+            if len(subs) > 1:
+                for i in range(len(subs)):
+                    rest = subs[:i] + subs[i + 1:]
+                    out.append(rest[0] if len(rest) == 1 else {'session': rest})
+            for i in range(len(subs[0]['data'])):
+                out.append({'session': [self._drop_record(c, i) for c in subs]})
+            for j, sub in enumerate(subs):
+                out += [{'session': subs[:j] + [c] + subs[j + 1:]} for c in self._cands(sub)
+                        if not c.get('session') and c['data'] == sub['data'] and c.get('feed') == sub.get('feed')]
+            return out
+        cands = []
+        for i in range(len(best['data'])):
+            cands.append(self._drop_record(best, i))
+        if best.get('base'):
+            cands.append({**best, 'base': None})
+        for opt in ('apply_base', 'ship', 'feed', 'member', 'persist'):
+            if best.get(opt):
+                cands.append({k: v for k, v in best.items() if k != opt})
+        if best.get('chain'):
+            if len(best['uppers']) > 1:
+                cands.append({**best, 'uppers': best['uppers'][:-1]})
+                cands.append({**best, 'tag0': best['uppers'][0], 'uppers': best['uppers'][1:]})
+                if best['tag0'] is None:
+                    cands.append({**best, 'uppers': best['uppers'][1:]})
+            nat = lambda b: None if b is None else [b[0], 'native' if b[1] not in BAD_FORMS else b[1]]  # noqa: E731
+            native = {**best, 'tag0': nat(best['tag0']), 'uppers': [nat(u) for u in best['uppers']]}
+            if native != best:
+                cands.append(native)
+        else:
+            if len(best['windows']) > 1:
+                cands.append({**best, 'windows': best['windows'][1:]})
+                cands.append({**best, 'windows': best['windows'][:-1]})
+                if len(best['windows']) > 2:
+                    cands += [{**best, 'windows': best['windows'][:i] + best['windows'][i + 1:]}
+                              for i in range(1, len(best['windows']) - 1)]
+            native = [[None if b is None else [b[0], 'native' if b[1] not in BAD_FORMS else b[1]] for b in w]
+                      for w in best['windows']]
+            if native != best['windows']:
+                cands.append({**best, 'windows': native})
+        return cands
+
     def _shrink(self, case: dict, sig: str) -> dict:
-        """Greedy: drop records, then windows from both ends, then respell bounds natively."""
+        """Greedy descent over `_cands` (every candidate is run from empty caches)."""
         best = case
         budget = 80
         changed = True
-        while changed and budget > 0:
+        while changed and budget > 0 and time.time() < self._deadline():
             changed = False
-            cands = []
-            for i in range(len(best['data'])):
-                cands.append(self._drop_record(best, i))
-            if best.get('base'):
-                cands.append({**best, 'base': None})
-            if best.get('chain'):
-                if len(best['uppers']) > 1:
-                    cands.append({**best, 'uppers': best['uppers'][:-1]})
-                    cands.append({**best, 'tag0': best['uppers'][0], 'uppers': best['uppers'][1:]})
-                    if best['tag0'] is None:
-                        cands.append({**best, 'uppers': best['uppers'][1:]})
-                nat = lambda b: None if b is None else [b[0], 'native' if b[1] not in BAD_FORMS else b[1]]  # noqa: E731
-                native = {**best, 'tag0': nat(best['tag0']), 'uppers': [nat(u) for u in best['uppers']]}
-                if native != best:
-                    cands.append(native)
-            else:
-                if len(best['windows']) > 1:
-                    cands.append({**best, 'windows': best['windows'][1:]})
-                    cands.append({**best, 'windows': best['windows'][:-1]})
-                native = [[None if b is None else [b[0], 'native' if b[1] not in BAD_FORMS else b[1]] for b in w]
-                          for w in best['windows']]
-                if native != best['windows']:
-                    cands.append({**best, 'windows': native})
-            for c in cands:
+            for c in self._cands(best):
                 budget -= 1
-                if budget <= 0:
+                if budget <= 0 or time.time() > self._deadline():
                     break
                 if self._fails(c, sig):
                     best, changed = c, True
@@ -1001,6 +1432,53 @@ class C10(fw.Check):
                 self.case(('extract', has, s), 'unit extract-ordinal', nontrivial=bool(s))
                 if impl != mod:
                     self.diverge('Extract ordinal/once', {'ordinal': has, 'once': s}, impl, mod)
+        self._unit_reconstruct(col, [s for s in spellings if s is not None])
+
+    RECONSTRUCT = ('cloudpickle', 'copy', 'deepcopy')
+
+    def _run_reconstruct(self, col, once, member: bool, how: str):
+        """`Ordinal(col, once)` and the same object after a round trip -> ['ok', semantic, semantic after, column kept] |
+        ['error', Exc]; `member`: `once` names the enum member to hand over instead of a spelling."""
+        from forml import project
+
+        try:
+            o = project.Source.Extract.Ordinal(col, live_member(once) if member else once)
+        except Exception as e:  # pylint: disable=broad-except
+            return ['error', exc_name(e)]
+        try:
+            o2 = roundtrip(o, how)
+        except Exception as e:  # pylint: disable=broad-except
+            return ['ok', repr(o.once), 'error:' + exc_name(e), True]
+        return ['ok', repr(o.once), repr(o2.once), bool(o2.column == o.column) and type(o2) is type(o)]
+
+    @staticmethod
+    def _oracle_reconstruct(once, member: bool, how: str, impl) -> typing.Optional[fw.Violation]:
+        """A copy of the ordinal specs (what a worker process, a deep-copied project descriptor, ... works with) names the
+        same semantic and the same column as the original."""
+        if impl[0] != 'ok' or (impl[1] == impl[2] and impl[3]):
+            return None
+        given = f'the enum member {once}' if member else f'once={once!r}'
+        what = (f'Ordinal specs built from {given} name the semantic {impl[1]}; after a {how} round trip they name {impl[2]}'
+                if impl[1] != impl[2] else f'Ordinal specs built from {given}: the column changed in a {how} round trip')
+        return fw.Violation(what, {'kind': 'reconstruct', 'once': once, 'member': member, 'how': how},
+                            f'reconstruction-changes-semantic:{impl[1]}->{impl[2]}' if impl[1] != impl[2]
+                            else 'reconstruction-changes-column')
+
+    def _unit_reconstruct(self, col, spellings: list):
+        args = [(None, False)] + [(s, False) for s in spellings] + [(m, True) for m, _, _ in live_once_table()[0]]
+        enc = [None if o is None else ['m', o] if mem else ['s', o] for o, mem in args]
+        answers = self.model([sexp.dumps(['ordinal', e]) for e in enc])
+        for (once, mem), ans in zip(args, answers):
+            mod = sexp.loads(ans)
+            for how in self.RECONSTRUCT:
+                impl = self._run_reconstruct(col, once, mem, how)
+                self.case(('reconstruct', once, mem, how), 'unit ordinal reconstruct', nontrivial=bool(once))
+                if impl[:3] != mod:
+                    self.diverge(f'Ordinal construction / reconstruction ({how})', {'once': once, 'member': mem, 'how': how},
+                                 impl[:3], mod)
+                v = self._oracle_reconstruct(once, mem, how, impl)
+                if v and v.signature not in {x.signature for x in self.violations}:
+                    self.violations.append(v)
 
     CAST_SAMPLES = {
         'bool': [True, False],
@@ -1209,14 +1687,134 @@ class C10(fw.Check):
         return fw.Violation(f'Runner.train(lower={lo!r}) with last training ordinal {tag!r} extracted from lower={got!r}',
                             {'kind': 'train', 'lower': _j(lo), 'tag': _j(tag)}, sig)
 
+    # ---- launch sequences in processes of their own --------------------------------------------------
+    def _xproc_cases(self) -> tuple[list, list]:
+        """(window histories for the worker processes, histories for the interactive launcher with the dask runner)"""
+        rng = self.rng
+        full = list(range(NPT))
+        closed = [[[1, 'native'], [2, 'native']], [[2, 'native'], [4, 'native']], [[4, 'native'], [5, 'native']]]
+        cases = []
+        for kind in KINDS:
+            for sem in ('exactly', 'atmost', 'atleast'):
+                cases.append({'kind': kind, 'once': sem, 'ordinal': True, 'open': [False, False], 'feed': 'alchemy',
+                              'windows': closed, 'data': full, 'mode': rng.choice(['apply', 'train'])})
+        pool = [full + full] + [self._data() for _ in range(2)]
+        for _ in range(self.n(25, 150)):
+            kind, sem = rng.choice(KINDS), rng.choice(['exactly', 'atmost', 'atleast'])
+            bounds = sorted(rng.sample(range(NPT), rng.randint(1, NPT)))
+            open_lo, open_hi = rng.random() < 0.4, rng.random() < 0.4
+            case = {'kind': kind, 'ordinal': True, 'open': [open_lo, open_hi], 'mode': rng.choice(['apply', 'train']),
+                    'windows': self._windows(kind, bounds, open_lo, open_hi)}
+            self._transport(case, sem, pool, p_feed=1.0)
+            cases.append(case)
+        plat = []
+        combos = ([('integer', 'at-least-once', False, 'apply'), ('timestamp', 'atmost', True, 'apply')] if self.quick else
+                  [(k, o, m, md) for k in ('integer', 'string', 'date') for o, m in (('atleast', False), ('AtMost', False),
+                   ('atmost', True), ('atleast', True), (None, False)) for md in ('apply', 'train')])
+        for kind, once, member, mode in combos:
+            # train mode through the launcher needs a label column (the sniffing pipeline is trained with labels)
+            plat.append({'kind': kind, 'once': once, 'member': member, 'ordinal': True, 'open': [False, False], 'feed': 'alchemy',
+                         'ship': 'builder', 'platform': True, 'windows': closed[:2], 'data': full, 'mode': mode,
+                         'base': ['labels'] if mode == 'train' else None})
+        return cases, plat
+
+    def _worker(self, job: dict, timeout: float = 420.0) -> typing.Optional[dict]:
+        """Run harness/props/c10_worker.py on a job; None when the process did not deliver a result."""
+        import json
+        import subprocess
+        import sys
+
+        script = os.path.join(os.path.dirname(os.path.abspath(__file__)), 'c10_worker.py')
+        try:
+            res = subprocess.run([sys.executable, script], input=json.dumps(job), capture_output=True, text=True,
+                                 timeout=timeout, cwd=job['home'], check=False)
+        except subprocess.TimeoutExpired:
+            return None
+        marker = '@@C10-RESULT@@'
+        lines = [ln for ln in res.stdout.split('\n') if ln.startswith(marker)]
+        if res.returncode != 0 or not lines:
+            self._worker_err = (res.stderr or '')[-400:]
+            return None
+        return json.loads(lines[-1][len(marker):])
+
+    def _xproc_job(self, cases: list, plat: list, tag: str = 'x') -> dict:
+        home = os.path.join(self._home, f'{tag}proc')
+        os.makedirs(home, exist_ok=True)
+        return {'repo': fw.REPO, 'home': home, 'cases': cases, 'platform': plat}
+
+    def _xproc_start(self) -> None:
+        """Two processes one after the other on the same job and the same FORML_HOME, in the background: the second one
+        is served from the parquet files that the first one left behind."""
+        import threading
+
+        cases, plat = self._xproc_cases()
+        self._xproc = {'cases': cases, 'platform': plat, 'phases': []}
+        job = self._xproc_job(cases, plat)
+
+        def run():
+            self._xproc['phases'].append(self._worker(job))
+            self._xproc['phases'].append(self._worker({**job, 'platform': []}))
+
+        self._xproc['thread'] = threading.Thread(target=run, daemon=True)
+        self._xproc['thread'].start()
+
+    def _xproc_finish(self) -> None:
+        x = self._xproc
+        x['thread'].join(600)
+        phases = x['phases']
+        if x['thread'].is_alive() or len(phases) != 2 or any(p is None for p in phases):
+            self.notes.append('launch sequences in separate processes: no result from the worker process '
+                              f'({getattr(self, "_worker_err", "timeout")!r}); stream skipped')
+            return
+        answers = self.model([self._model_line(c) for c in x['cases'] + x['platform']])
+        reported: set = set()
+        for n, phase in enumerate(phases):
+            runs = list(zip(x['cases'], phase['cases'], answers)) + \
+                list(zip(x['platform'], phase['platform'], answers[len(x['cases']):]))
+            for case, impl, ans in runs:
+                if impl and impl[0] == 'machinery':
+                    self.notes.append(f'platform launch not run: {impl[1][:200]}')
+                    continue
+                impl = ('ctor-error', impl[1]) if impl and impl[0] == 'ctor-error' else impl
+                how = 'platform dask' if case.get('platform') else f'process {n + 1} of 2'
+                self.case(('xproc', n, repr(case)), f"xproc {how} {case['kind']} {spec_sem(case['once'])}",
+                          nontrivial=True, sample=None)
+                mod = self._model_answer(case, ans)
+                if impl != mod:
+                    self.diverge(f'windows delivered in a process of its own ({how}) differ from the model', case, impl, mod)
+                for what, sig, detail in self._oracle_e2e(case, impl):
+                    if sig in reported or len(reported) >= 4:
+                        continue
+                    reported.add(sig)
+                    where = ('launched through the interactive launcher with the dask runner (scheduler: processes)'
+                             if case.get('platform') else
+                             f'launch sequence run in a process of its own, process {n + 1} of 2 sharing one FORML_HOME')
+                    self.violate(f'{what} [{where}]', {'kind': 'xproc', 'case': case, 'phases': n + 1}, sig, detail)
+
+    def _replay_xproc(self, w: dict) -> typing.Optional[fw.Violation]:
+        case = w['case']
+        job = self._xproc_job([] if case.get('platform') else [case], [case] if case.get('platform') else [], tag='r')
+        impl = None
+        for _ in range(int(w.get('phases', 1))):
+            res = self._worker(job)
+            if res is None:
+                raise fw.MachineryError(f'worker process failed: {getattr(self, "_worker_err", "timeout")}')
+            impl = (res['platform'] if case.get('platform') else res['cases'])[0]
+        impl = ('ctor-error', impl[1]) if impl and impl[0] == 'ctor-error' else impl
+        for what, sig, detail in self._oracle_e2e(case, impl):
+            return fw.Violation(what, w, sig, detail)
+        return None
+
     # ---- framework hooks ---------------------------------------------------------------------
     def correspondence(self):
+        self._xproc_start()
         self._unit_once()
         self._unit_cast()
         self._unit_where()
         self._unit_prepared()
         self._unit_train()
         self._e2e()
+        self._xproc_finish()
         if not self.quick:
             self._planted()
 
@@ -1225,8 +1823,8 @@ class C10(fw.Check):
         case = {'kind': 'integer', 'once': 'atleast', 'ordinal': True, 'open': [False, False],
                 'windows': [[[1, 'native'], [3, 'native']], [[3, 'native'], [5, 'native']]], 'data': [3], 'mode': 'apply'}
         impl = self._run_e2e(case)
-        wrong = sexp.num(sexp.loads(self.model([self._model_line({**case, 'once': 'exactly'})])[0]))
-        right = sexp.num(sexp.loads(self.model([self._model_line(case)])[0]))
+        wrong = self._model_answer(case, self.model([self._model_line({**case, 'once': 'exactly'})])[0])
+        right = self._model_answer(case, self.model([self._model_line(case)])[0])
         if impl == wrong or impl != right:
             raise fw.MachineryError(f'planted divergence not detected: impl={impl} right={right} wrong={wrong}')
         self.notes.append('planted-divergence self-test: caught')
@@ -1236,6 +1834,8 @@ class C10(fw.Check):
         history), plus every sub-sequence obtained by dropping one window; oracle on the real code. Without a diverging
         case (a theorem no longer checks) the same is done around a fixed seed of each shape."""
         div = [d.case for d in self.divergences if isinstance(d.case, dict)]
+        if not hasattr(self, '_cached_log'):
+            self._cached_log = {}
         seeds = [c for c in div if 'windows' in c][:4]
         seeds = seeds or [{'kind': 'integer', 'once': 'exactly', 'ordinal': True, 'open': [True, True],
                            'windows': [[None, [1, 'native']], [[1, 'native'], [2, 'native']], [[2, 'native'], [4, 'native']],
@@ -1250,33 +1850,55 @@ class C10(fw.Check):
                              'uppers': [[3, 'native'], [4, 'native']], 'data': list(range(NPT))}]
         tried = 0
         found = {v.signature for v in self.violations}
+        t_end = time.time() + (20 if self.quick else 240)
 
         def judge(case):
             nonlocal tried
+            if time.time() > t_end or len(self.violations) >= self.MAX_E2E_REPORTS + 2:
+                return
             tried += 1
-            for what, sig, detail in self._oracle_e2e(case, self._run_e2e(case)):
+            # every candidate starts from empty result caches: what is found reproduces as it is
+            for what, sig, detail in self._oracle_e2e(case, self._run_e2e(case, fresh=True)):
                 if sig not in found:
                     found.add(sig)
-                    small = self._shrink(case, sig)
-                    self.violate(self._oracle_first(small, sig) or what, {'kind': 'e2e', 'case': small}, sig)
+                    self._report(case, what, sig, detail)
 
         def respell(kind, b):
             return None if b is None else [b[0], 'native' if b[1] in BAD_FORMS or b[1] not in forms(kind, b[0]) else b[1]]
 
+        def transports(seed):
+            """(feed, ship, member): the seed's own way to the storage first, then the others"""
+            own = (seed.get('feed'), seed.get('ship'), bool(seed.get('member')))
+            rest = [('alchemy', 'builder', False), (None, 'statement', True), ('alchemy', None, False), (None, 'ordinal-deepcopy', False),
+                    (None, None, True), (None, None, False)]
+            return [own] + [t for t in rest if t != own]
+
+        def dress(case, feed, ship, member):
+            out = {k: v for k, v in case.items() if k not in ('feed', 'ship', 'member', 'apply_base', 'persist')}
+            if feed:
+                out['feed'] = feed
+            if ship and out['ordinal']:
+                out['ship'] = ship
+            if member and out['ordinal'] and out['once']:
+                out['member'] = True
+            return out
+
         for seed in seeds:
-            for kind, sem in itertools.product(KINDS, ['exactly', 'atmost', 'atleast', None]):
-                wins = [[respell(kind, b) for b in w] for w in seed['windows']]
-                variants = [wins] + [wins[:i] + wins[i + 1:] for i in range(len(wins))] if len(wins) > 1 else [wins]
-                for w in variants:
-                    case = {**seed, 'kind': kind, 'once': sem, 'windows': w, 'data': list(range(NPT)), 'base': None}
-                    if not case['ordinal']:
-                        case['once'] = None
-                    judge(case)
+            for n, (feed, ship, member) in enumerate(transports(seed)):
+                for kind, sem in itertools.product(KINDS, ['exactly', 'atmost', 'atleast', None]):
+                    wins = [[respell(kind, b) for b in w] for w in seed['windows']]
+                    variants = [wins] + [wins[:i] + wins[i + 1:] for i in range(len(wins))] if len(wins) > 1 and n == 0 else [wins]
+                    for w in variants:
+                        case = {**seed, 'kind': kind, 'once': sem, 'windows': w, 'data': list(range(NPT)), 'base': None}
+                        if not case['ordinal']:
+                            case['once'] = None
+                        judge(dress(case, feed, ship, member))
         for seed in chains:
-            for kind, sem in itertools.product(KINDS, ['exactly', 'atmost', 'atleast', None]):
-                case = {**seed, 'kind': kind, 'once': sem if seed['ordinal'] else None, 'tag0': respell(kind, seed['tag0']),
-                        'uppers': [respell(kind, u) for u in seed['uppers']], 'data': list(range(NPT)), 'base': None}
-                judge(case)
+            for n, (feed, ship, member) in enumerate(transports(seed)[:3]):
+                for kind, sem in itertools.product(KINDS, ['exactly', 'atmost', 'atleast', None]):
+                    case = {**seed, 'kind': kind, 'once': sem if seed['ordinal'] else None, 'tag0': respell(kind, seed['tag0']),
+                            'uppers': [respell(kind, u) for u in seed['uppers']], 'data': list(range(NPT)), 'base': None}
+                    judge(dress(case, feed, ship, member))
         self.notes.append(f'failing-input search ({reason}): {tried} neighbouring cases')
 
     def replay_finding(self, entry):
@@ -1293,9 +1915,17 @@ class C10(fw.Check):
             if got[1] is not _unj(w['upper']) and got[1] != _unj(w['upper']):
                 return fw.Violation(f"Runner.{w['method']} loaded the feed with upper={got[1]!r}", w, entry.get('signature', ''))
             return None
+        if kind == 'xproc':
+            return self._replay_xproc(w)
+        if kind == 'reconstruct':
+            from forml.io import dsl
+
+            col = dsl.Table(dsl.Schema.from_fields(dsl.Field(dsl.Integer(), name='o'), title='C10once')).o
+            return self._oracle_reconstruct(w['once'], w['member'], w['how'],
+                                            self._run_reconstruct(col, w['once'], w['member'], w['how']))
         if kind == 'e2e':
             case = w['case']
-            for what, sig, detail in self._oracle_e2e(case, self._run_e2e(case)):
+            for what, sig, detail in self._oracle_e2e(case, self._run_e2e(case, fresh=True)):
                 return fw.Violation(what, w, sig, detail)
         return None
 
